@@ -117,7 +117,8 @@ def run(ctx):
                 if nm in want:
                     n += 1
                     if want[nm] == "&":
-                        ok = ty.startswith("&") and not ty.startswith("&mut")
+                        # a shared reference, or a value the function owns and has no mutable binding for (`impl AsRef<[u8]>`)
+                        ok = not ty.startswith("&mut") and (ty.startswith("&") or not p.get("mut"))
                     else:
                         ok = not ty.startswith("&mut") and not p.get("mut")
                     rep.ob("C15.borrow", "%s|%s|%s" % (cfg, fn, nm), ok, "input `%s` is taken by shared reference / by value without a mutable binding" % nm, found="%s%s" % ("mut " if p.get("mut") else "", ty))
